@@ -537,6 +537,24 @@ func (a *Act) callMods(li *loopInfo, m *modSet, c ssa.CallInstruction, depth int
 		m.all = true
 		return
 	}
+	// a statically called function that the contract traces (callback clause): the call appends to the
+	// ghost event trace, so a loop containing it modifies the trace heaps
+	if fc := a.top.fc; fc != nil && fc.CallbackRank != nil && depth == 0 {
+		cname := callee.Name()
+		if o := callee.Origin(); o != nil {
+			cname = o.Name()
+		}
+		if _, traced := fc.CallbackRank[cname]; traced {
+			for _, h := range []string{traceLen, traceKind, traceArg0, traceArg1, traceErr} {
+				m.heap(h, traceSorts[h]).unknown = true
+			}
+			for h, srt := range a.u.heapSort {
+				if strings.HasPrefix(h, "T_arg_") || strings.HasPrefix(h, "T_res") || strings.HasPrefix(h, "T_recv_") {
+					m.heap(h, srt).unknown = true
+				}
+			}
+		}
+	}
 	if sv := sortSliceArg(callee, com); sv != nil {
 		et := types.Unalias(sv.Type()).Underlying().(*types.Slice).Elem()
 		var roots []Term
@@ -731,7 +749,11 @@ func (a *Act) loopHead(li *loopInfo, st *State, preds []edgeState) *State {
 			oldH := st.heap(n, hm.sort)
 			nh := u.FreshHeap(n, hm.sort)
 			h.setHeap(n, hm.sort, nh)
-			if srt, isTrace := traceSorts[n]; isTrace {
+			srt, isTrace := traceSorts[n]
+			if strings.HasPrefix(n, "T_arg_") || strings.HasPrefix(n, "T_res") || strings.HasPrefix(n, "T_recv_") {
+				isTrace = true // argument / result / receiver slots of traced calls: indexed by event, append-only as well
+			}
+			if isTrace {
 				// the ghost event trace is append-only: entries below the length at loop entry are unchanged
 				l0 := st.heap(traceLen, "Int")
 				if n == traceLen {
